@@ -298,11 +298,10 @@ mod cli {
             let is_hyphen = cli.input.first().unwrap() == "-";
 
             if is_single_item && is_hyphen && is_stdin_available {
-                Ok(stdin()
+                stdin()
                     .lock()
                     .lines()
-                    .map(|line| line.unwrap())
-                    .collect_vec())
+                    .collect::<Result<Vec<String>, Error>>()
             } else {
                 Ok(cli.input.clone())
             }
